@@ -17,6 +17,18 @@ func vCmpKT(a, b vKT) int {
 	return 0
 }
 
+// vCmpKTWide orders like vCmpKT but returns magnitudes other than 1, as the
+// comparison contract (<0, 0, >0) permits.
+func vCmpKTWide(a, b vKT) int {
+	if a.K < b.K {
+		return -5
+	}
+	if a.K > b.K {
+		return 7
+	}
+	return 0
+}
+
 // vShape builds a tree with n nodes; the shape is chosen by vChoice (every
 // binary tree shape with n nodes is reachable). Keys are filled in later.
 func vShape(n int) *node[vKT] {
